@@ -201,7 +201,7 @@ func c26Run(c *core.Ctx, raw json.RawMessage) {
 	}()
 
 	m := &c26Model{items: map[uint64][]byte{}}
-	var img []byte       // last quiescent image
+	var img []byte // last quiescent image
 	var imgModel *c26Model
 	nEnq, nIgn, nDel, nEmit, nReopen, nCrash, nTorn := 0, 0, 0, 0, 0, 0, 0
 
